@@ -191,3 +191,16 @@ pub fn oracle_delta(kind: usize, side: u8) {
     assert!(xor_sum(&q) == xor_sum(&p) ^ delta(&p, &q));
     kani::cover!(true);
 }
+
+/// quick complement to hash_is_xor_sum: CONCRETE placement (so hash()'s loops run on constants), symbolic side, rights and
+/// en-passant target (whatever is valid for that placement)
+pub fn hash_on_placement(pcs: [[u64; 6]; 2]) {
+    load();
+    let p = BPos { pcs, white_to_move: kani::any(), rights: [[kani::any(), kani::any()], [kani::any(), kani::any()]], ep: kani::any() };
+    kani::assume(pos::valid(&p));
+    #[cfg(test)] println!("REPLAY-CASE {{\"fen\":\"{}\"}}", pos::fen_of(&p));
+    let g = pos::game_of(&p);
+    assert!(zobrist::hash(&g).0 == xor_sum(&p));
+    kani::cover!(p.ep < 64);
+    std::mem::forget(g);
+}
